@@ -39,6 +39,9 @@ SCENARIOS = {
     "remove_last_def_vs_add": ([an(A, A1)], [[an(A, A2)], [an(B, B1, True)]]),
     "cold_index_three_fresh": ([], [[an(A, A1, True)], [an(B, B1, True)], [an(C, C1, True)]]),
     "two_removals_one_add": ([an(A, A1), an(B, B1)], [[an(A, A2)], [an(B, B2)], [an(C, C1)]]),
+    # both definers of a name drop it at the same time and nobody adds one: whatever the interleaving, the name must be gone
+    # (no empty entry left behind) - exactly as after the two removals in either sequential order
+    "two_removals_of_a_shared_name": ([an(A, A1), an(B, B1)], [[an(A, A2)], [an(B, B2)]]),
     "reanalysis_same_content_pair": ([an(A, A1), an(B, B1)], [[an(A, A1)], [an(B, B1)]]),
     "edit_during_scan": ([an(A, A1, True)], [[an(A, A3)], [an(B, B1, True)], [an(C, C1, True)]]),
     "swap_owner_of_names": ([an(A, A1), an(B, B2)], [[an(A, A2)], [an(B, B1)]]),
